@@ -204,6 +204,7 @@ class Ctx:
         self.violations = []
         self.inconclusive = []
         self.monitors = {}
+        self.aux = {}            # key -> [digest, replay info]; compared across PYTHONHASHSEED runs of one batch
         self.t0 = time.time()
         self.deadline = None
 
@@ -246,7 +247,7 @@ class Ctx:
                 'counters': self.counters, 'evaluations': self.evaluations,
                 'nontrivial': sorted(self.nontrivial), 'samples': self.samples,
                 'violations': self.violations, 'inconclusive': self.inconclusive,
-                'monitors': self.monitors, 'max_steps': STEPS.max_seen,
+                'monitors': self.monitors, 'aux': self.aux, 'hashseed': os.environ.get('PYTHONHASHSEED'), 'max_steps': STEPS.max_seen,
                 'anchors': dict(STEPS.reached), 'wall_s': time.time() - self.t0}
 
 
